@@ -6,6 +6,7 @@ package handshake
 import (
 	"crypto/tls"
 	"encoding/binary"
+	"math"
 
 	dtlserrors "github.com/pion/dtls/v3/internal/errors"
 	"github.com/pion/dtls/v3/pkg/crypto/clientcertificate"
@@ -48,6 +49,9 @@ func (m *MessageCertificateRequest) Marshal() ([]byte, error) {
 		out = append(out, byte(v))
 	}
 
+	if len(m.SignatureHashAlgorithms)*2 > math.MaxUint16 {
+		return nil, dtlserrors.ErrCertificateRequestTooLong
+	}
 	out = append(out, []byte{0x00, 0x00}...)
 	binary.BigEndian.PutUint16(out[len(out)-2:], uint16(len(m.SignatureHashAlgorithms)*2)) //nolint:gosec //G115
 	for _, v := range m.SignatureHashAlgorithms {
@@ -59,8 +63,12 @@ func (m *MessageCertificateRequest) Marshal() ([]byte, error) {
 	for _, ca := range m.CertificateAuthoritiesNames {
 		casLength += len(ca) + 2
 	}
+	if casLength > math.MaxUint16 {
+		// The length fields would wrap and the peer could not decode the message.
+		return nil, dtlserrors.ErrCertificateRequestTooLong
+	}
 	out = append(out, []byte{0x00, 0x00}...)
-	binary.BigEndian.PutUint16(out[len(out)-2:], uint16(casLength))
+	binary.BigEndian.PutUint16(out[len(out)-2:], uint16(casLength)) //nolint:gosec //G115
 	if casLength > 0 {
 		for _, ca := range m.CertificateAuthoritiesNames {
 			out = append(out, []byte{0x00, 0x00}...)
